@@ -290,3 +290,110 @@ Example ex_overlap_begin_end :
   xtrace hash_x (fun p => p) cf_and bc_off (map XAtomic hist1)
     = map EvAtomic (betrace hash_x (fun p => p) cf_and bc_off hist1).
 Proof. vm_compute. repeat split; reflexivity. Qed.
+
+(* ---------------------------------------------------------------------- *)
+(* reconfiguration of a live loop object                                    *)
+
+(* what matters of the events of a history with reconfiguration: for a reply (logic in force, cached?,
+   blocked?, token); for an assignment the logic from now on *)
+Definition rshape (e : rev) :=
+  match e with
+  | RvSet cf _ _ => (cf_logic cf, false, false, None)
+  | RvOp cf _ x => match xreply x with
+                   | Some (_, r) => (cf_logic cf, r_cached r, c_blocked (r_core r), c_token (r_core r))
+                   | None => (cf_logic cf, false, false, None)
+                   end
+  end.
+
+(* c07_reconf_pass_only_if / c07_reconf_config_in_force: a loop built with OR ("dry run") lets
+   EXECUTE/BLOCK through; after gate_logic = AND and clear_cache() the same verdicts for the same
+   prompt are blocked - the reply is decided by the logic in force, not by the one the loop was built
+   with; back to OR (cache cleared again): passes again *)
+Definition rhist1 : list rop :=
+  [ RX (XAtomic (OReq (mkReq [97] 0 VExecute VBlock)));
+    RSet (SLogic LAnd); RX (XAtomic OClear);
+    RX (XAtomic (OReq (mkReq [97] 1 VExecute VBlock)));
+    RSet (SLogic LOr); RX (XAtomic OClear);
+    RX (XAtomic (OReq (mkReq [97] 2 VExecute VBlock))) ].
+
+Example ex_reconf_go_live :
+  map rshape (rtrace hash_x (fun p => p) cf_or bc_off rhist1)
+  = [ (LOr, false, false, None); (LAnd, false, false, None); (LAnd, false, false, None);
+      (LAnd, false, true, None);
+      (LOr, false, false, None); (LOr, false, false, None); (LOr, false, false, None) ] /\
+  config_after (cf_or, bc_off) (firstn 4 rhist1) = (cf_and, bc_off).
+Proof. vm_compute. split; reflexivity. Qed.
+
+(* c07_reconf_cache_same_verdict / c07_reconf_pass_only_if, cached branch: WITHOUT the clear_cache()
+   the approval given under OR is still served (within the TTL) after gate_logic = AND: identical in
+   verdict to the original, which satisfied the logic configured when it was decided ([cfj] = the OR
+   configuration, not the one in force); once the entry has expired the request is decided under AND *)
+Example ex_reconf_cached_across :
+  map rshape (rtrace hash_x (fun p => p) cf_or bc_off
+    [ RX (XAtomic (OReq (mkReq [97] 0 VExecute VBlock))); RSet (SLogic LAnd);
+      RX (XAtomic (OReq (mkReq [97] 4 VExecute VBlock))); RX (XAtomic (OReq (mkReq [97] 5 VExecute VBlock))) ])
+  = [ (LOr, false, false, None); (LAnd, false, false, None); (LAnd, true, false, None); (LAnd, false, true, None) ].
+Proof. vm_compute. reflexivity. Qed.
+
+(* c07_reconf_completed_is_own_gate: a request begun under OR that is still inside its agents when the
+   loop goes to AND is judged under AND when it returns (blocked); one begun under AND and ended under
+   OR passes *)
+Example ex_reconf_in_flight :
+  map rshape (rtrace hash_x (fun p => p) cf_or bc_off
+    [ RX (XBegin 0 (mkReq [97] 0 VExecute VBlock)); RSet (SLogic LAnd); RX (XEnd 0 1);
+      RX (XBegin 1 (mkReq [98] 2 VExecute VBlock)); RSet (SLogic LOr); RX (XEnd 1 3) ])
+  = [ (LOr, false, false, None); (LAnd, false, false, None); (LAnd, false, true, None);
+      (LAnd, false, false, None); (LOr, false, false, None); (LOr, false, false, None) ].
+Proof. vm_compute. reflexivity. Qed.
+
+(* c07_reconf_token_bound: the issuer of a token is the assessor's name when the reply was produced: the
+   cached token keeps the old name [89], a fresh one carries the new name [90]; and the other settings
+   act from the moment they are assigned: with enable_cache = False nothing is served or stored, a
+   shorter TTL expires an entry that the old one would still serve *)
+Example ex_reconf_other_settings :
+  map (fun e => match rreply e with
+                | Some (_, _, r) => (r_cached r, c_token (r_core r), r_cache_size r)
+                | None => (false, None, 0%nat) end)
+      (rtrace hash_x (fun p => p) cf_and bc_off
+        [ RX (XAtomic (OReq (mkReq [97] 0 VExecute VPermit))); RSet (SAssessor [90]);
+          RX (XAtomic (OReq (mkReq [97] 1 VBlock VBlock))); RX (XAtomic (OReq (mkReq [98] 1 VExecute VPermit)));
+          RSet (SCache false); RX (XAtomic (OReq (mkReq [97] 2 VBlock VBlock)));
+          RSet (SCache true); RSet (STtl 2); RX (XAtomic (OReq (mkReq [97] 2 VBlock VBlock))) ])
+  = [ (false, Some (mkToken [7; 97] [89]), 1%nat); (false, None, 0%nat);
+      (true, Some (mkToken [7; 97] [89]), 1%nat); (false, Some (mkToken [7; 98] [90]), 2%nat);
+      (false, None, 0%nat); (false, None, 2%nat);
+      (false, None, 0%nat); (false, None, 0%nat); (false, None, 2%nat) ].
+Proof. vm_compute. reflexivity. Qed.
+
+(* the breaker's settings too: its counters run while it is disabled (threshold 2: two raising requests
+   open it), so enabling it on the live loop turns the next request away; a lower recovery time then
+   lets a probe through *)
+Example ex_reconf_breaker :
+  map (fun e => match rreply e with
+                | Some (_, _, r) => action_code (c_action (r_core r))
+                | None => -1 end)
+      (rtrace hash_x (fun p => p) cf_and (mkBcfg false 2 60)
+        [ RX (XAtomic (OReq (mkReq [97] 0 VRaised VPermit))); RX (XAtomic (OReq (mkReq [97] 1 VRaised VPermit)));
+          RX (XAtomic (OReq (mkReq [98] 2 VExecute VPermit)));
+          RSet (SBreaker true); RX (XAtomic (OReq (mkReq [99] 3 VExecute VPermit)));
+          RSet (SRecovery 2); RX (XAtomic (OReq (mkReq [99] 3 VExecute VPermit))) ])
+  = [4; 4; 0; -1; 5; -1; 0].
+Proof. vm_compute. reflexivity. Qed.
+
+(* c07_reconf_none_is_overlap / c07_reconf_loops_isolated on concrete histories *)
+Example ex_reconf_none :
+  rtrace hash_x (fun p => p) cf_and bc_off (map RX xhist1)
+  = map (RvOp cf_and bc_off) (xtrace hash_x (fun p => p) cf_and bc_off xhist1) /\
+  proj true (rsys_trace hash_x (fun p => p) cf_or cf_or bc_off bc_off
+               [ (true, RSet (SLogic LAnd)); (false, RX (XAtomic (OReq (mkReq [97] 0 VExecute VBlock))));
+                 (true, RX (XAtomic (OReq (mkReq [97] 0 VExecute VBlock)))) ])
+  = rtrace hash_x (fun p => p) cf_or bc_off [RSet (SLogic LAnd); RX (XAtomic (OReq (mkReq [97] 0 VExecute VBlock)))].
+Proof. vm_compute. split; reflexivity. Qed.
+
+(* Had the gate been resolved ONCE, at construction (a loop that keeps deciding by the logic it was built
+   with while reporting the configured one), the first conjunct would fail on [rhist1]: request 3 would
+   come back not blocked although EXECUTE/BLOCK does not satisfy the configured AND. *)
+Example ex_reconf_stale_gate_would_violate :
+  spec_pass (cf_logic (fst (config_after (cf_or, bc_off) (firstn 4 rhist1)))) VExecute VBlock = false /\
+  g_blocked (gate (cf_logic cf_or) VExecute VBlock) = false.
+Proof. vm_compute. split; reflexivity. Qed.
